@@ -229,7 +229,7 @@ impl CaseDriver for C05 {
             ],
             excluded: vec![
                 "the lefrw binary (the harness links the library, not the binary); its code path is save/open, which are covered".into(),
-                "macro / pin PROPERTY statements reach the writer only if the reader keeps them (it drops them today: C04 finding lef_reader_drops_macro_and_pin_properties), POLYGON/PATH ITERATE likewise".into(),
+                "POLYGON / PATH geometries with ITERATE reach the writer only if the reader accepts them (it rejects them today: C04 finding lef_reader_rejects_iterate_on_polygon_and_path)".into(),
                 "library values outside the reader's image (e.g. EXCEPTPGNET false, SOURCE above 5.4)".into(),
             ],
             technique: "deviation-bounded exhaustive enumeration of reader inputs; every distinct reader output pushed through both writer entry points and back through the reader".into(),
@@ -314,12 +314,12 @@ impl CaseDriver for C05 {
         }
         for t in [
             "namescasesensitive", "nowireextensionatpin", "units", "propertydefinitions", "extensions", "sites", "via-fixed",
-            "via-generated", "density", "obs", "macro-source", "antenna",
+            "via-generated", "density", "obs", "macro-source", "antenna", "properties",
         ] {
             tags.push(format!("img:{t}"));
         }
         // every keyword the writer can emit for a library of the reader's image
-        let not_written = ["ROWPATTERN", "PATTERN", "MAXVIASTACK", "GENERATE", "PROPERTY"];
+        let not_written = ["ROWPATTERN", "PATTERN", "MAXVIASTACK", "GENERATE"];
         for k in lr::KEYWORDS {
             if !not_written.contains(k) {
                 tags.push(format!("written:{k}"));
